@@ -1033,6 +1033,20 @@ class Evaluator:
         return self.comp("gen", e, [e.elt], fr)
 
     def e_DictComp(self, e, fr):
+        # {k: v for x in <sequence of statically known length>} is the literal dictionary
+        if len(e.generators) == 1 and not e.generators[0].ifs:
+            probe = Frame(self, fr.module, fr.qual, cls=fr.cls, parent=fr)
+            probe.guards = fr.guards
+            items = self.known_items(self.expr(e.generators[0].iter, probe))
+            if items is not None:
+                out = []
+                for it_ in items:
+                    sub = Frame(self, fr.module, fr.qual, cls=fr.cls, parent=fr)
+                    sub.guards = fr.guards
+                    self.assign_target(e.generators[0].target, it_, sub, e)
+                    out.append((self.expr(e.key, sub), self.expr(e.value, sub)))
+                if all(k[0] == "const" for k, _ in out):
+                    return ("dict", tuple(out))
         return self.comp("dict", e, [e.key, e.value], fr)
 
     def e_Call(self, e, fr):
@@ -1226,6 +1240,17 @@ class Evaluator:
                 CMP = {"eq": "==", "ne": "!=", "lt": "<", "le": "<=", "gt": ">", "ge": ">=", "is_": "is", "is_not": "is not"}
                 if op in CMP and len(args) == 2:
                     return ("cmp", CMP[op], args[0], args[1])
+            if nm in ("builtins.tuple", "builtins.list", "builtins.sorted") and len(args) == 1 and args[0][0] == "dict" \
+                    and all(k is not None and k[0] == "const" for k, _ in args[0][1]):
+                # iterating a dictionary literal yields its keys (insertion order; sorted() sorts them)
+                ks = [k for k, _ in args[0][1]]
+                if nm.endswith("sorted"):
+                    try:
+                        ks = sorted(ks, key=lambda k: k[1])
+                    except TypeError:
+                        ks = None
+                if ks is not None:
+                    return ("list" if nm.endswith(("list", "sorted")) else "tuple", tuple(ks))
             if nm == "builtins.tuple" and len(args) == 1:
                 it = self.known_items(args[0])
                 if it is not None:
